@@ -59,6 +59,9 @@ def gen_cases(tier, seed):
                           n_out=int(rng.integers(1, 4)), B=int(rng.integers(1, 18)) if net == "pinn" else int(rng.integers(2, 4)),
                           wvec=bool(rng.integers(2)), eager=(k % 10 == 0), seed=seed * 100000 + k, x64=bool(k % 7 != 3),
                           cost=1.0 + (1.0 if net == "spinn" else 0.0)))
+        c = cases[-1]
+        if c["wvec"] and c["ncomp"] >= 2 and net == "pinn" and k % 3 == 0:
+            c["B"] = c["ncomp"]  # as many batch points as residual components: the weight is still per component
     return cases
 
 
@@ -194,6 +197,8 @@ def run_case(case, rec):
     exp = dyn_expected(pts, wdyn)
     got = float(terms["dyn_loss"])
     nonuni = case["wvec"] and case["ncomp"] >= 2
+    if nonuni and B == case["ncomp"]:
+        rec.count("per_component_weights_with_batch_size_equal_ncomp")
     if nonuni:
         rec.count("multi_component_nonuniform_weight_cases")
     if exp > 1e-6:
